@@ -1,33 +1,10 @@
 (* C16 — lemmas about coq/C16/Model.v, part A: association lists, provenance of data, the local step lemma *)
 From Coq Require Import List Arith Bool Lia.
 Import ListNotations.
-From GU Require Import C16.Model.
+From GU Require Import C16.Model C16.ProofsBase.
 
 (* ------------------------------------------------------------------------------------------------ *)
 (* association lists                                                                                  *)
-
-Lemma fname_eqb_refl : forall k, fname_eqb k k = true.
-Proof. destruct k; simpl; auto using Nat.eqb_refl. Qed.
-
-Lemma fname_eqb_eq : forall a b, fname_eqb a b = true -> a = b.
-Proof. destruct a, b; simpl; intros H; try discriminate; auto; apply Nat.eqb_eq in H; subst; auto. Qed.
-
-Lemma aget_adel {V} : forall k k' (l : list (fname * V)),
-  aget k (adel k' l) = if fname_eqb k k' then None else aget k l.
-Proof.
-  intros k k' l. induction l as [|[k0 v] r IH]; simpl.
-  - destruct (fname_eqb k k'); auto.
-  - destruct (fname_eqb k' k0) eqn:E0.
-    + apply fname_eqb_eq in E0. subst k0. rewrite IH. destruct (fname_eqb k k'); auto.
-    + simpl. destruct (fname_eqb k k0) eqn:E1.
-      * apply fname_eqb_eq in E1. subst k0. destruct (fname_eqb k k') eqn:E2; auto.
-        apply fname_eqb_eq in E2. subst k'. rewrite fname_eqb_refl in E0. discriminate.
-      * exact IH.
-Qed.
-
-Lemma aget_aset {V} : forall k k' (v : V) l,
-  aget k (aset k' v l) = if fname_eqb k k' then Some v else aget k l.
-Proof. intros. unfold aset. simpl. rewrite aget_adel. destruct (fname_eqb k k'); auto. Qed.
 
 (* ------------------------------------------------------------------------------------------------ *)
 (* provenance of data: every chunk stems from a version in S                                          *)
@@ -109,23 +86,6 @@ Proof. unfold client_ok. intros S S' L H (A & B & C & D). repeat split; eauto us
 
 (* ------------------------------------------------------------------------------------------------ *)
 (* case analysis of one micro-step                                                                    *)
-
-Ltac break_in H :=
-  match type of H with
-  | context [match ?x with _ => _ end] =>
-      lazymatch x with
-      | context [match _ with _ => _ end] => fail
-      | _ => destruct x eqn:?
-      end
-  end.
-
-Ltac step_cases H :=
-  unfold step in H;
-  match type of H with context [finished ?L] => destruct (finished L) eqn:? end;
-  [ | match type of H with context [match ?f with NoF => _ | _ => _ end] => destruct f end;
-      unfold die, store_step, fetch_step, clean_step, lock_step, unlock_step, hash_write, ffail in H;
-      repeat (break_in H; simpl in H) ];
-  inversion H; subst; clear H.
 
 Definition started_own (S : ver -> Prop) (L : client) : Prop :=
   forall v u, c_op L = OStore v u -> c_pc L <> SInit -> S v.
